@@ -123,6 +123,22 @@ def replay_dictattr(call):
                         except exc:
                             if sel in vals:
                                 msg = '%s %r raised although the key is present' % (op, sel)
+                    elif op == 'setattr.key':
+                        e = d.copy()
+                        setattr(e, sel, 'new')
+                        exp = {**vals, sel: 'new'}
+                        if not _same(e, exp, cls):
+                            msg = 'e = d.copy(); e.%s = "new" gives %s(%r), expected %r' % (sel, type(e).__name__, dict(e), exp)
+                    elif op == 'delattr.key':
+                        e = d.copy()
+                        try:
+                            delattr(e, sel)
+                            exp = {k: vals[k] for k in keys if k != sel}
+                            if sel not in vals or not _same(e, exp, cls):
+                                msg = 'e = d.copy(); del e.%s gives %s(%r), expected %r' % (sel, type(e).__name__, dict(e), exp)
+                        except AttributeError:
+                            if sel in vals:
+                                msg = 'del e.%s raised AttributeError although the key is present' % sel
                     elif op == 'getitem.tuple':
                         try:
                             r = d[tuple(sel)]
